@@ -20,11 +20,14 @@ var vC10Shapes = []string{
 	// native-function names that exist somewhere in the library but not as free functions: methods of the built-in types
 	`{"t":T,"v":{"name":"Array.sum"}}`, `{"t":T,"v":{"name":"Dict.keys"}}`, `{"t":T,"v":{"name":"Computed.compute"}}`, `{"t":T,"v":{"name":"sum"}}`, `{"t":T,"v":{"name":"Array.kh"}}`, `{"t":T,"v":{"name":"ceil"}}`,
 	`{"t":T,"v":{"name":"Array.sum","self":null}}`, `{"t":T,"v":{"name":"Str.len"}}`,
+	// every real builtin by name (each must arrive callable)
+	`{"t":T,"v":{"name":"load"}}`, `{"t":T,"v":{"name":"loadRaw"}}`, `{"t":T,"v":{"name":"store"}}`, `{"t":T,"v":{"name":"floor"}}`, `{"t":T,"v":{"name":"round"}}`, `{"t":T,"v":{"name":"toInt"}}`,
+	`{"t":T,"v":{"name":"toFloat"}}`, `{"t":T,"v":{"name":"toStr"}}`, `{"t":T,"v":{"name":"toBool"}}`, `{"t":T,"v":{"name":"repr"}}`, `{"t":T,"v":{"name":"typeId"}}`, `{"t":T,"v":{"name":"dir"}}`,
 	`{"t":T,"v":[1,2]}`, `{"t":T,"v":{"list":{"a":1}}}`, `{"t":T,"v":{}}`, `null`, `[]`, `"str"`, `12`, `{"t":"0"}`, `{"t":1.5}`, `{"T":T,"V":N}`, `{}`,
 }
 
 var vC10Scripts = []string{
-	"x", "x + 1", "x[0]", "x.a", "x()", "x(1)", "-x", "x == x", "x.len()", "[x][0]", "x ? 1 : 2", "`{x}`", "x ?? 1", "toStr(x)", "dir(x)", "typeId(x)", "repr(x)",
+	"x", "x + 1", "x[0]", "x.a", "x()", "x(1)", "x('hp', 12)", "x('hp')", "-x", "x == x", "x.len()", "[x][0]", "x ? 1 : 2", "`{x}`", "x ?? 1", "toStr(x)", "dir(x)", "typeId(x)", "repr(x)",
 	"x.sum()", "x.keys()", "x[0:1]", "x.a = 1", "x[0] = 1", "x.compute()", "x * 2", "[1] + x", "x.kh()", "{'k': x}.k", "x && 1", "(x)d6", "load('x')",
 }
 
@@ -58,7 +61,7 @@ func vC10Battery(v *VMValue, script string) {
 	vObserveAll(vm, err)
 }
 
-//vh:prop=C10 tiers=quick,thorough sigkeys=shape,script unwind=6 unwind_ok=1 depth_is_violation=1 maxdepth=4000 maxsteps=150000000 budget_s=1800 quick:P.scripts=8 thorough:P.scripts=30 bounds="40 document shapes (well-typed, ill-typed, missing / null fields, nested nulls, unknown native names, wrong container kinds, scalars, wrong-case keys) with the type tags and numbers as 64-bit solver symbols (so every known and unknown tag is a case of the decoder's switch), decoded with VMValueFromJSON through the real UnmarshalJSON code (JSON syntax and struct mapping by the engine's encoding/json model); every successfully decoded value goes through printing, repr, truthiness, equality, clone, re-serialisation, dict-key use and a script (quick: 8 scripts, thorough: 30) binding it to a variable: no panic site may be reachable"
+//vh:prop=C10 tiers=quick,thorough sigkeys=shape,script unwind=6 unwind_ok=1 depth_is_violation=1 maxdepth=4000 maxsteps=150000000 budget_s=1800 quick:P.scripts=10 thorough:P.scripts=32 bounds="52 document shapes (well-typed, ill-typed, missing / null fields, nested nulls, unknown native names, wrong container kinds, scalars, wrong-case keys) with the type tags and numbers as 64-bit solver symbols (so every known and unknown tag is a case of the decoder's switch), decoded with VMValueFromJSON through the real UnmarshalJSON code (JSON syntax and struct mapping by the engine's encoding/json model); every successfully decoded value goes through printing, repr, truthiness, equality, clone, re-serialisation, dict-key use and a script (quick: 8 scripts, thorough: 30) binding it to a variable: no panic site may be reachable"
 func VH_C10_value() {
 	si := vChoice("shape", len(vC10Shapes))
 	doc := vC10Doc(vC10Shapes[si])
